@@ -140,7 +140,7 @@ pub fn run(cx: &mut Ctx) {
     for &f in &FMTS {
         for &w in &sizes {
             for &h in &sizes {
-                if miri && (w, h) == (16, 16) {
+                if miri && ((w, h) == (16, 16) || (w, h) == (8, 16) || !matches!(f, Fmt::Rgba8 | Fmt::Rgb565 | Fmt::L8 | Fmt::Etc1A4)) {
                     continue;
                 }
                 cx.case("all_shapes_all_formats", |c| {
@@ -277,7 +277,9 @@ pub fn run(cx: &mut Ctx) {
                 p.extend_from_slice(&pixels::etc1_make_block(false, false, 3, 4, [0x77, 0x88, 0x99], 0x1234, 0x5678));
             }
         }
-        check_etc(c, true, 64, 64, &p, "alpha nibble x position");
+        if !cfg!(miri) {
+            check_etc(c, true, 64, 64, &p, "alpha nibble x position");
+        }
         // uniform alpha planes (all sixteen nibbles equal), incl. fully transparent and fully opaque
         let mut p = Vec::new();
         for v in 0..16u64 {
@@ -290,7 +292,7 @@ pub fn run(cx: &mut Ctx) {
     // ---- RGB5A3: all 65536 values through ColorFormat::decode
     cx.case("rgb5a3_all_values", |c| {
         c.sit("rgb5a3_all_values");
-        let step = if cfg!(miri) { 257 } else { 1 };
+        let step = if cfg!(miri) { 4099 } else { 1 };
         let vals: Vec<u16> = (0..=0xFFFFu32).step_by(step).map(|v| v as u16).collect();
         let mut p = Vec::new();
         for v in &vals {
@@ -341,7 +343,7 @@ pub fn run(cx: &mut Ctx) {
         });
     }
     // ---- random payloads on random shapes
-    let n = cx.a.n(4_000, 100_000);
+    let n = cx.a.n(20_000, 200_000);
     for _ in 0..n {
         cx.case("random_payloads", |c| {
             let mut rng = c.rng.clone();
@@ -393,6 +395,14 @@ fn run_blocks(c: &mut Case, blocks: &[[u8; 8]], tag: &str) {
     if blocks.is_empty() {
         return;
     }
+    // Miri: a UB smoke lane - every 29th block only
+    let sub: Vec<[u8; 8]>;
+    let blocks: &[[u8; 8]] = if cfg!(miri) {
+        sub = blocks.iter().step_by(29).copied().collect();
+        &sub
+    } else {
+        blocks
+    };
     // width 8, height 8*ceil(n/4): tiles of 4 blocks
     let tiles = (blocks.len() + 3) / 4;
     let mut p = Vec::new();
